@@ -141,6 +141,103 @@ static void hygiene() {
         else if (f == 1 && (g_pool[0].used != 5 || g_pool[0].offset != 0)) vp::fail("hygiene:repeat", "repeat did not make the filled octets unread again", rep);
     }
 }
+// Observation sweep: the harness owns the schedule (as in C16). A forked child single-steps one byte_buffer_add / byte_buffer_consume with the
+// x86 trap flag; at instruction k the SIGTRAP handler either
+//   (observe) acts as the other end of the queue - it drains the same buffer with byte_buffer_consume_at_most, the usual transmit-interrupt
+//             split - and returns, or
+//   (abandon) leaves the call for good with siglongjmp (a watchdog that aborts a transfer).
+// Whatever the buffer offers at that moment must be octets that were added, in order: the fill mark never covers memory the add has not
+// written yet, a consume never gives up octets it has not delivered. After an observed call the rest arrives in order as well.
+#if defined(__x86_64__)
+#include <sys/wait.h>
+#include <ucontext.h>
+#include <setjmp.h>
+namespace sweep {
+static volatile long g_step, g_target; static volatile int g_fired, g_bad, g_mode;
+static ByteBuffer g_b; static uint8_t g_mem[96], g_stream[80], g_drained[96]; static volatile size_t g_next;   // g_next: index in g_stream of the oldest octet still queued
+static sigjmp_buf g_jb;
+static void check_offered() {   // everything between the read mark and the fill mark is the stream from g_next on
+    size_t n = g_b.used >= g_b.offset ? g_b.used - g_b.offset : 0;
+    if (g_b.used > g_b.size || g_b.offset > g_b.used || g_next + n > sizeof g_stream) { g_bad = 1; return; }
+    if (memcmp(g_b.data + g_b.offset, g_stream + g_next, n) != 0) g_bad = 1;
+}
+static void trap_handler(int, siginfo_t *, void *ucv) {
+    if (++g_step != g_target) return;
+    ucontext_t *uc = (ucontext_t *)ucv;
+    uc->uc_mcontext.gregs[REG_EFL] &= ~0x100L;
+    g_fired = 1;
+    if (g_mode == 1) siglongjmp(g_jb, 1);
+    check_offered();
+    size_t before = g_b.used >= g_b.offset ? g_b.used - g_b.offset : 0;
+    int rc = byte_buffer_consume_at_most(&g_b, g_drained, sizeof g_drained);
+    if (rc > 0) { if ((size_t)rc != before || memcmp(g_drained, g_stream + g_next, (size_t)rc) != 0) g_bad = 1; g_next += (size_t)rc; }
+}
+// what: 0 byte_buffer_add of 24 octets behind 5 queued ones; 1 byte_buffer_consume of 24 of 29 queued octets (handler observes only in abandon mode or checks marks)
+static int child(int what, int mode, long k) {
+    pid_t pid = fork();
+    if (pid < 0) return 8;
+    if (pid == 0) {
+        for (size_t i = 0; i < sizeof g_stream; i++) g_stream[i] = (uint8_t)(0x21 + 5 * i);
+        memset(g_mem, 0xee, sizeof g_mem);
+        byte_buffer_space(&g_b, g_mem, sizeof g_mem);
+        size_t queued = what == 0 ? 5 : 29;
+        byte_buffer_add(&g_b, g_stream, queued);
+        g_next = 0; g_mode = mode; g_step = 0; g_target = k; g_fired = 0; g_bad = 0;
+        static uint8_t out[32]; memset(out, 0, sizeof out);
+        struct sigaction sa; memset(&sa, 0, sizeof sa); sa.sa_sigaction = trap_handler; sa.sa_flags = SA_SIGINFO | SA_NODEFER; sigemptyset(&sa.sa_mask);
+        sigaction(SIGTRAP, &sa, nullptr);
+        volatile int rc = -1; volatile bool finished = false;
+        if (sigsetjmp(g_jb, 1) == 0) {
+            __asm__ volatile("pushfq\n\torq $0x100, (%%rsp)\n\tpopfq" ::: "cc", "memory");
+            rc = what == 0 ? byte_buffer_add(&g_b, g_stream + 5, 24) : byte_buffer_consume(&g_b, out, 24);
+            __asm__ volatile("pushfq\n\tandq $~0x100, (%%rsp)\n\tpopfq" ::: "cc", "memory");
+            finished = true;
+        }
+        int ex = 0;
+        if (!g_fired) ex |= 4;
+        if (finished) {
+            if (rc != 0) ex |= 1;
+            if (what == 1) { if (mode == 0 && g_fired) { /* the handler drained what the call was about to deliver or the rest: both orders are fine, the union is checked below */ } }
+        }
+        if (what == 0) {
+            // after the add (finished or abandoned): what is offered is stream octets in order, nothing else
+            check_offered();
+            if (finished && mode == 0 && g_next + (g_b.used - g_b.offset) != 29) ex |= 1;
+        } else {
+            // consume: delivered octets (if the call finished) and what is still queued together are the stream, in order, nothing lost
+            if (finished && !(mode == 0 && g_fired)) { if (memcmp(out, g_stream, 24) != 0) ex |= 1; g_next = 24; check_offered(); if (g_b.used - g_b.offset != 5) ex |= 1; }
+            if (!finished) { g_next = 0; size_t n = g_b.used - g_b.offset; if (n == 29) check_offered(); else if (n == 5) { g_next = 24; check_offered(); if (memcmp(out, g_stream, 24) != 0) ex |= 1; } else ex |= 1; }
+        }
+        if (g_bad) ex |= 2;
+        _exit(ex);
+    }
+    int st = 0;
+    if (waitpid(pid, &st, 0) != pid || !WIFEXITED(st)) return 8;
+    return WEXITSTATUS(st);
+}
+static void run() {
+    static const char *wn[2] = {"byte_buffer_add", "byte_buffer_consume"}, *mn[2] = {"observed-by-a-draining-handler", "abandoned-by-siglongjmp"};
+    for (int what = 0; what < 2; what++) for (int mode = 0; mode < 2; mode++) {
+        if (what == 1 && mode == 0) continue;     // a handler that adds while the main line consumes is the same split seen from the other side; not promised
+        long tried = 0, bad_at = -1;
+        for (long k = 1; k < 100000; k += (k < 400 ? 1 : 5)) {
+            int rc = child(what, mode, k);
+            if (rc & 8) { vp::stats().notes["observation_sweep"] = "fork/wait failed: phase skipped"; return; }
+            if (rc & 4) break;
+            tried++; vp::alive();
+            if ((rc & 3) && bad_at < 0) bad_at = k;
+        }
+        vp::count((uint64_t)tried); vp::cls(std::string("observation-points:") + wn[what] + ":" + mn[mode], (uint64_t)tried);
+        vp::nontrivial(vp::mix((uint64_t)tried, 515100 + (uint64_t)(what * 2 + mode)));
+        if (bad_at >= 0) vp::fail(std::string("in-progress:") + wn[what] + ":" + mn[mode], vp::fmt("%s %s at instruction %ld: the buffer offers octets that were never added (or has lost octets it never delivered) - its marks are ahead of its memory while the call is in progress", wn[what], mode ? "abandoned" : "observed", bad_at), "observation-sweep\n");
+    }
+}
+}
+static void observation_sweep() { sweep::run(); }
+#else
+static void observation_sweep() {}
+#endif
+
 static void run() {
     auto &a = vp::args();
     size_t maxsize = a.thorough() ? 5 : 4;
@@ -153,6 +250,7 @@ static void run() {
                                g_maxdepth, maxsize);
     vp::stats().exhaustive = true;
     if (a.shard == 0) { setup_calls(); hygiene(); }
+    if (a.shard == 2 % a.nshards && !vp::vg().on) observation_sweep();
     if (a.shard == 1 % a.nshards && !vp::vg().on) giant_buffers();
     // initial states are dealt round-robin to the shards
     unsigned idx = 0;
@@ -177,6 +275,7 @@ static bool replay(const std::string &text) {
         return vp::stats().failures.empty();
     }
     if (!ls.empty() && ls[0].rfind("hygiene", 0) == 0) { hygiene(); return vp::stats().failures.empty(); }
+    if (!ls.empty() && ls[0].rfind("observation-sweep", 0) == 0) { observation_sweep(); return vp::stats().failures.empty(); }
     if (!ls.empty() && ls[0].rfind("giant", 0) == 0) { giant_buffers(); return vp::stats().failures.empty(); }
     Case c;
     if (!parse(text, c)) { fprintf(stderr, "unparsable replay\n"); return false; }
